@@ -25,7 +25,7 @@ CONFIG = {
         "file system: os.CreateTemp names are unique, os.Rename is atomic and replaces the target (process runs as root, so a read-only target is replaced rather than refused); blobs/<alg>/<encoded> is injective in the digest string",
         "file.Store: only plain file names (no path traversal, no unpack annotation, non-manifest media types); two different names never resolve to the same path",
         "concurrent pushes: the micro-step transition system of Model/Verify.v (cstep) is not tied to the code by trace correspondence; the concurrent oracle (goroutine races of good/bad pushes of one digest on oci/memory/limited stores with a concurrent observer) exercises the real code",
-        "cas.Proxy (caching wrapper): oracle only (cache never holds content that does not match); its pipe/goroutine plumbing is not modelled; its cache is a modelled LimitedStorage/Memory",
+        "cas.Proxy (caching wrapper): oracle only (the cache never holds content that does not match, FetchAll through the proxy accepts only matching bytes and reports trailing bytes, nothing blocks: 20 s watchdog); its pipe/goroutine plumbing is not modelled; its cache is a modelled LimitedStorage/Memory",
     ],
     "level_text": "Coq theorems for every reader behaviour (arbitrary chunking, 0-byte reads, error at any offset, data with EOF), every descriptor and every digest function: ReadAll / any use of VerifyReader / CopyBuffer (any buffer size) succeed only with exactly the descriptor's bytes and an exhausted reader; malformed or unsupported digest, negative size, short reader, wrong first-Size bytes and trailing bytes are always errors; Push on memory, limited, OCI and file stores stores exactly those bytes or leaves Exists/Fetch/blobs unchanged; after any push history everything visible matches; any interleaving of concurrent OCI pushes keeps every blob verified; pre-fix negative-size acceptance kept as a refuted witness. Model tied to the code by differential runs (scripted readers x descriptors x push histories on the real stores, listing blobs/ and ingest/) and an independent SHA-2 oracle incl. goroutine races and the caching proxy",
     "level_note": "digest function abstract (no SHA-2 model); Go io helpers and go-digest validation hand-modelled (tied by correspondence, AST hashes of the mirrored functions recorded); write errors of the destination, path traversal/unpack in file.Store and the Proxy's pipe plumbing are not modelled; the concurrent transition system is validated only through the concurrent oracle",
